@@ -446,10 +446,33 @@ func (p *Program) runJobsL(fns []*ssa.Function, lemmas []*Contract, cfg SolverCf
 			if q.nq != "" {
 				ctx, cancel := context.WithTimeout(context.Background(), time.Duration(cfg2.TimeoutMs+2000)*time.Millisecond)
 				nq2 := strings.Replace(q.nq, fmt.Sprintf("(set-option :timeout %d)", cfg.TimeoutMs), fmt.Sprintf("(set-option :timeout %d)", cfg2.TimeoutMs), 1)
-				out, _ := runSolver(ctx, "z3-new", []string{"-in", "smt.array.extensional=false"}, nq2)
+				// the same three variants as in the main pass (some obligations are settled by one of them only)
+				variants := []struct{ name, sc string }{
+					{"z3-5.1.0-noext (instances only, retry)", nq2},
+					{"z3-5.1.0-noext-inc (instances only, retry)", strings.Replace(nq2, "(check-sat)", "(push 1)\n(check-sat)", 1)},
+					{"z3-5.1.0-noext-opaquecal (instances only, retry)", opaqueCalendar(nq2)},
+				}
+				ch := make(chan string, len(variants))
+				for _, v := range variants {
+					go func(name, sc string) {
+						out, _ := runSolver(ctx, "z3-new", []string{"-in", "smt.array.extensional=false"}, sc)
+						if a, _ := solverAnswer(out); a == "unsat" {
+							ch <- name
+						} else {
+							ch <- ""
+						}
+					}(v.name, v.sc)
+				}
+				won := ""
+				for range variants {
+					if n := <-ch; n != "" {
+						won = n
+						break
+					}
+				}
 				cancel()
-				if a, _ := solverAnswer(out); a == "unsat" {
-					q.o.Status, q.o.Solver = "proved", "z3-5.1.0-noext (instances only, retry)"
+				if won != "" {
+					q.o.Status, q.o.Solver = "proved", won
 					continue
 				}
 			}
@@ -460,6 +483,11 @@ func (p *Program) runJobsL(fns []*ssa.Function, lemmas []*Contract, cfg SolverCf
 			} else if tmp.Status == "failed" {
 				q.o.Status, q.o.Solver, q.o.Output, q.o.Model = "failed", tmp.Solver, tmp.Output, tmp.Model
 			}
+		}
+	}
+	if os.Getenv("GOVC_PROGRESS") != "" {
+		for _, q := range pfs {
+			fmt.Fprintf(os.Stderr, "late %s [%s] %s %.2fs\n", q.o.Name, q.o.Status, q.o.Solver, q.o.Secs)
 		}
 	}
 	return jobs
